@@ -34,7 +34,7 @@ AGREE_THEOREMS = {
 
 # source-agreement leaves (DESIGN 11.7): interpreting the dumped Python source = the model, for all inputs
 PYAGREE = {
-    'C02': ['MiscFd'],
+    'C02': ['MiscFd', 'LayerSend'],
     'C03': ['Pdu', 'MiscFc', 'LayerRx'],
     'C04': ['LayerTxHelpers', 'LayerTx'],
     'C05': ['Pdu', 'LayerRx'],
@@ -51,7 +51,7 @@ PYAGREE = {
     'C20': ['AddressFns', 'SockOpts'],
 }
 # leaves that are finished and committed
-PYAGREE_READY = {'LayerTxHelpers', 'LayerQueues', 'Exec2Bridge', 'SockOpts', 'AddressFns', 'AddressValidate', 'AddressInit', 'Pdu', 'MiscFd', 'MiscFc', 'MiscTimer'}
+PYAGREE_READY = {'LayerSend', 'LayerTxHelpers', 'LayerQueues', 'Exec2Bridge', 'SockOpts', 'AddressFns', 'AddressValidate', 'AddressInit', 'Pdu', 'MiscFd', 'MiscFc', 'MiscTimer'}
 
 
 def pyagree_theorems(mod):
